@@ -105,6 +105,9 @@ class PythonCV2XLinkLayer(LinkLayer):
                     self.receive_callback(data)
                 except NotImplementedError as e:
                     print("Error decoding packet: " + str(e))
+                except Exception as e:  # pylint: disable=broad-exception-caught
+                    # Whatever a received frame triggers must not end the callback loop
+                    print("Error processing received packet: " + repr(e))
 
     def stop(self) -> None:
         """
